@@ -309,7 +309,7 @@ theorem setSliceBool_bits (h : Heap) (p : PBA) (hp : WF h p) (lo hi : Option Int
   rw [setSlice_parent hp lo hi ht L E hL hE hLE R, (toBools_rewrites hwt R).2, hn]
   congr 2
   apply List.ext_getElem?; intro i
-  by_cases c : i < E - L <;> simp [c, List.getElem?_replicate]
+  by_cases c : i < E - L <;> simp [c]
 
 /-- `p[L:E] = vals` with a boolean array of the right length. -/
 theorem setSliceArr_bits (h : Heap) (p : PBA) (hp : WF h p) (lo hi : Option Int) (t : PBA)
@@ -336,8 +336,7 @@ theorem setSliceArr_rejects (h : Heap) (p : PBA) (lo hi : Option Int) (t : PBA) 
     (hwt : WF h t) (vals : List Bool) (hne : t.n ≠ 0) (hv : vals.length ≠ t.n) :
     setSliceArr h p lo hi vals = .error .value := by
   obtain ⟨f, hf⟩ := PBA.fml_ok hwt false
-  simp [setSliceArr, ht, hwt.pyLen, hne, hf, hv, bind, Except.bind, pure, Except.pure, throw, throwThe,
-    MonadExceptOf.throw]
+  simp [setSliceArr, ht, hwt.pyLen, hne, hf, hv, bind, Except.bind, throw, throwThe, MonadExceptOf.throw]
 
 /-- NumPy: `p[L:E] = q` copies `np.asarray(q)` for every `q` of that length, also when `q` is an
     overlapping view of the same array.  The code: same alignment (documented) and — extra
@@ -480,7 +479,7 @@ theorem setIdxArr_bits_partial (h : Heap) (p : PBA) (hwf : WF h p) (idx : List N
       simp only [beq_iff_eq] at hj
       obtain ⟨i, v⟩ := iv
       simp only at hj; subst hj
-      simp only [Option.map_some]
+      dsimp only
       cases v with
       | false => simp [hm]
       | true =>
@@ -567,19 +566,20 @@ theorem copy_masks_padding (h : Heap) (p : PBA) (hwf : WF h p) :
       8 * ((k - 8 * h.size) / 8) + (k - 8 * h.size) % 8 < p.start + p.n) := by omega
   simp [this]
 
-/-- NumPy: `a.resize(n)` (n ≥ len) keeps the elements and appends `False`.
-    The code does so for an owning array whose padding bits (after the last element, in its own
+/-- NumPy: `a.resize(n)` (n ≥ len) keeps the elements and appends `False` (owning arrays only).
+    The code does so whenever the padding bits of `p` (after its last element, inside its own
     last byte) are zero — true for arrays made by the constructor with `size`,
-    `from_boolean_array`, `copy` and earlier `resize`s, but not for a user-supplied
-    `data_buffer` with dirty padding. -/
-theorem resize_bits (h : Heap) (p : PBA) (hwf : WF h p) (hown : p.own = true) (n : Nat)
+    `from_boolean_array`, `copy` and earlier `resize`s; not for a user-supplied `data_buffer`
+    with dirty padding, and not for a slice view (whose "padding" is the parent's data).
+    A non-owning `p` is detached (copied) first; no existing array changes. -/
+theorem resize_bits (h : Heap) (p : PBA) (hwf : WF h p) (n : Nat)
     (hge : (bits h p).length ≤ n) (hpad : PadZero h p) :
-    ∃ h' p', resize h p n = ((h', p'), none) ∧ WF h' p' ∧ p'.own = true ∧
+    ∃ h' p', resize h p n = ((h', p'), none) ∧ WF h' p' ∧ (p.own = true → p'.own = true) ∧
       bits h' p' = bits h p ++ List.replicate (n - (bits h p).length) false ∧
-      ∀ w, WF h w → Disjoint p w → WF h' w ∧ bits h' w = bits h w := by
+      ∀ w, WF h w → WF h' w ∧ bits h' w = bits h w := by
   rw [toBools_length h p hwf] at hge ⊢
-  obtain ⟨h', p', e, hw', _, ho, hb, hold, hsz⟩ := resize_spec h p hwf hown n hge hpad
-  refine ⟨h', p', e, hw', ho, hb, fun w hw _ => ?_⟩
+  obtain ⟨h', p', e, hw', _, ho, hb, hold, hsz⟩ := resize_spec h p hwf n hge hpad
+  refine ⟨h', p', e, hw', fun hh => ho (Or.inl hh), hb, fun w hw => ?_⟩
   have hww : WF h' w := by
     obtain ⟨b1, b2, b3, b4, b5⟩ := hw
     exact ⟨b1, b2, b3, b4, by omega⟩
@@ -614,11 +614,14 @@ example :
     bits h p ++ List.replicate 3 false = [true, true, true, true, true, false, false, false] := by
   decide
 
-/-- `resize` on a view: `_stop_index` is advanced although `self._data.resize` fails. -/
+/-- the deviation on a view: `v = P(30 × True)[3:6]; v.resize(5)` is accepted (NumPy refuses to
+    resize a view), detaches `v` from its parent, and the two new elements are the parent's
+    bits 6 and 7 (`True`), not `False`. -/
 example :
-    let h : Heap := #[0, 0, 0, 0]
-    let v : PBA := ⟨0, 1, 3, 6, false⟩                      -- P(size=30)[3:6]
-    (resize h v 50).2 = some .value ∧ (resize h v 50).1.2.size = 50 := by
+    let h : Heap := #[0xFF, 0xFF, 0xFF, 0x3F]
+    let v : PBA := ⟨0, 1, 3, 6, false⟩                      -- P(30 × True)[3:6]
+    let r := (resize h v 5).1
+    (resize h v 5).2 = none ∧ r.2.own = true ∧ r.2.off = 4 ∧ bits r.1 r.2 = List.replicate 5 true := by
   decide
 
 /-- `p.sum(shape=shape)` (no axis) on an aligned array whose size is the product of `shape`
